@@ -292,7 +292,7 @@ def seq3_k__K__(kind_i: int, r1: int, n2: int, r2: int, n3: int, r3: int) -> boo
 RACEF = r'''
 def race___KIND_____CUR_____N1__(n2: int, first: int, k1: int, k2: int) -> bool:
     """
-    pre: 0 <= n2 <= 13 and 0 <= first <= 1 and 0 <= k1 <= 26 and 0 <= k2 <= 26
+    pre: 0 <= n2 <= 13 and 0 <= first <= FIRSTMAX and 0 <= k1 <= 26 and 0 <= k2 <= 26
     post: _
     """
     n2 = pick(n2, 0, 13)
@@ -342,15 +342,16 @@ def run(ctx: Ctx) -> None:
     owned = [STATUSES.index(x) for x in ("pending", "running")]
     sq_first = [STATUSES.index(x) for x in ("success", "running_recovery", "killed", "retry")]
     ix = STATUSES.index
-    owner_requests = {ix("running"): [ix(x) for x in ("running", "success", "failed", "retry", "killed", "rerouted", "running_recovery", "pending_recovery")],
-                      ix("pending"): [ix(x) for x in ("running", "killed", "rerouted", "pending_recovery")]}
+    owner_requests = {ix("running"): [ix(x) for x in (("running", "success", "failed", "retry", "killed", "rerouted", "running_recovery", "pending_recovery") if thorough
+                                                       else ("success", "failed", "retry", "killed", "running_recovery"))],
+                      ix("pending"): [ix(x) for x in (("running", "killed", "rerouted", "pending_recovery") if thorough else ("running", "killed"))]}
     for kind, cur_list in ((0, owned), (1, [STATUSES.index("running")])):
         for cur in cur_list:
             for n1 in (owner_requests[cur] if kind == 0 else sq_first):
-                rsrc += RACEF.replace("__KIND__", str(kind)).replace("__CUR__", str(cur)).replace("__N1__", str(n1))
+                rsrc += RACEF.replace("FIRSTMAX", "1" if thorough else "0").replace("__KIND__", str(kind)).replace("__CUR__", str(cur)).replace("__N1__", str(n1))
                 rconds.append(Cond(f"race_{kind}_{cur}_{n1}", "confirm", 900, keyfn=lambda a, k: "C01:two-requests-in-flight:not-linearisable"))
     ctx.ch_batch("c01race", rsrc, rconds)
-    ctx.bounds["two requests in flight"] = ("start PENDING / RUNNING owned by r1; request 1 by the owner (8 statuses from RUNNING, 4 from PENDING), request 2 by another runner (any of the 14 statuses); first actor and 2 preemptions "
+    ctx.bounds["two requests in flight"] = ("start PENDING / RUNNING owned by r1; request 1 by the owner (quick: 5 statuses from RUNNING, 2 from PENDING, owner first; thorough: 8 / 4, either first), request 2 by another runner (any of the 14 statuses); first actor and 2 preemptions "
                                             "(slices 0..26); in-memory: all; SQLite: from RUNNING with request 1 in {SUCCESS, RUNNING_RECOVERY, KILLED, RETRY}; oracle = some serial order of the specification table")
     ctx.functions_encoded += [
         "pynenc.invocation.status.status_record_transition (validate_transition, validate_ownership, compute_new_owner)",
